@@ -164,6 +164,53 @@ fn fam_counter(ctx: &mut Context, rng: &mut Rng) -> TransitionSystem {
     sys
 }
 
+/// k-bit arithmetic progression x' = x + c (k = 3..5, odd and even c; c a constant or chosen among 2 / 4
+/// constants by an input), arbitrary reset value, one or two
+/// single bad values: the unsat cores of the relative-induction queries drop many bits here, so that the
+/// restore loop of `fix_gen_cube` runs with several literals (seeded change C10-m4)
+fn fam_arith(ctx: &mut Context, rng: &mut Rng) -> TransitionSystem {
+    let mut sys = TransitionSystem::new("arith".to_string());
+    let w = rng.range(3, 5) as WidthInt;
+    let max = (1u64 << w) - 1;
+    let x = ctx.bv_symbol("x", w);
+    // the step: a constant, or one of 2 / 4 constants chosen by an input (then the initial state has
+    // several successors and the restore loop needs several literals to keep them all out)
+    let step = match rng.below(3) {
+        0 => lit(ctx, w, rng.range(1, max)),
+        1 => {
+            let sel = ctx.bv_symbol("sel", 1);
+            sys.add_input(ctx, sel);
+            let a = lit(ctx, w, rng.range(1, max));
+            let b = lit(ctx, w, rng.range(0, max));
+            ctx.ite(sel, a, b)
+        }
+        _ => {
+            let sel = ctx.bv_symbol("sel", 2);
+            sys.add_input(ctx, sel);
+            let hi = ctx.slice(sel, 1, 1);
+            let lo = ctx.slice(sel, 0, 0);
+            let a = lit(ctx, w, rng.range(1, max));
+            let b = lit(ctx, w, rng.range(0, max));
+            let c = lit(ctx, w, rng.range(1, max));
+            let d = lit(ctx, w, rng.range(0, max));
+            let ab = ctx.ite(lo, a, b);
+            let cd = ctx.ite(lo, c, d);
+            ctx.ite(hi, ab, cd)
+        }
+    };
+    let next = ctx.add(x, step);
+    let reset = rng.range(0, max);
+    let init = lit(ctx, w, reset);
+    add_state(ctx, &mut sys, x, Some(init), Some(next));
+    for _ in 0..(if rng.chance(1, 4) { 2 } else { 1 }) {
+        let t = rng.range(0, max);
+        let tl = lit(ctx, w, t);
+        let b = ctx.equal(x, tl);
+        sys.bad_states.push(b);
+    }
+    sys
+}
+
 /// shift register of 1-bit states fed by an input; optional constraint "no two consecutive ones"
 fn fam_shift(ctx: &mut Context, rng: &mut Rng) -> TransitionSystem {
     let mut sys = TransitionSystem::new("shift".to_string());
@@ -728,6 +775,7 @@ fn fam_consbad(ctx: &mut Context, rng: &mut Rng) -> TransitionSystem {
 fn gen_family(ctx: &mut Context, rng: &mut Rng, fam: &str) -> TransitionSystem {
     match fam {
         "counter" => fam_counter(ctx, rng),
+        "arith" => fam_arith(ctx, rng),
         "shift" => fam_shift(ctx, rng),
         "lockstep" => fam_lockstep(ctx, rng),
         "ring" => fam_ring(ctx, rng),
@@ -746,7 +794,8 @@ fn gen_family(ctx: &mut Context, rng: &mut Rng, fam: &str) -> TransitionSystem {
 }
 
 const FAMILIES: &[(&str, u64)] = &[
-    ("counter", 18),
+    ("counter", 16),
+    ("arith", 12),
     ("shift", 12),
     ("lockstep", 12),
     ("ring", 12),
@@ -1188,8 +1237,12 @@ fn parent(args: &Args) {
                 continue;
             }
             // cvc5 seed 2 = --minimal-unsat-cores: 0.2-0.35 s per (get-unsat-assumptions); the relational
-            // families need 100-250 queries at 4 state bits, which is the watchdog's whole budget
-            if cfg.solver == "cvc5" && cfg.sseed == 2 && cfg.gen_on && class.state_bits > 3 && matches!(fam, "lockstep" | "fsm" | "ring") {
+            // families (and the arithmetic progressions, 300 queries at depth 8) need 100-300 queries at 4 state bits,
+            // which is the watchdog's whole budget
+            // (the same for any system whose bad states are 7 or more steps away / need 7 or more frames)
+            if cfg.solver == "cvc5" && cfg.sseed == 2 && cfg.gen_on && class.state_bits > 3
+                && (matches!(fam, "lockstep" | "fsm" | "ring" | "arith") || class.depth.map_or(class.bwd_layers >= 7, |d| d >= 7))
+            {
                 stats.inc("minimal_core_runs_skipped_expensive");
                 continue;
             }
@@ -1252,6 +1305,23 @@ fn parent(args: &Args) {
             stats.bump("trace_queries", &bucket(res.fields.matches(" (q ").count() as u64));
             stats.bump("trace_blocked_cubes", &bucket(res.fields.matches(" (block ").count() as u64));
             stats.bump("trace_frames", &format!("{}", res.fields.matches(" (addframe ").count().min(20)));
+            // how far the restore loop of fix_gen_cube was exercised: the largest number of candidate
+            // literals in one of its queries
+            let sizes = genfix_sel_sizes(&res.fields);
+            let label = match sizes.iter().map(|p| p.0).max() {
+                None => "restore-loop-not-reached".to_string(),
+                Some(m) if m >= 4 => "max-literals-4+".to_string(),
+                Some(m) => format!("max-literals-{m}"),
+            };
+            stats.bump("trace_restore_loop", &label);
+            stats.add("trace_restore_queries_with_2+_literals", sizes.iter().filter(|p| p.0 >= 2).count() as u64);
+            stats.add("trace_restore_cores_with_2+_literals", sizes.iter().filter(|p| p.1 >= 2).count() as u64);
+            if sizes.iter().any(|p| p.0 >= 2) {
+                stats.bump("restore_loop_2+_by_family", &job.family);
+            }
+            if sizes.iter().any(|p| p.1 >= 2) {
+                stats.bump("restore_core_2+_by_family", &job.family);
+            }
         } else {
             stats.inc("runs_without_trace_hook");
         }
@@ -1265,6 +1335,29 @@ fn parent(args: &Args) {
     }
     stats.add("distinct_cases", distinct.len() as u64);
     stats.write(&args.out);
+}
+
+/// for every restore-loop query in a dumped trace: the number of candidate literals (`sel`) and the
+/// number of literals in the unsat core of the answer (0 when the answer is sat)
+fn genfix_sel_sizes(fields: &str) -> Vec<(usize, usize)> {
+    let mut out = vec![];
+    let mut rest = fields;
+    while let Some(i) = rest.find(" (q genfix ") {
+        rest = &rest[i + 11..];
+        // the event ends where the next one starts
+        let end = [" (q ", " (block ", " (addframe "].iter().filter_map(|m| rest.find(m)).min().unwrap_or(rest.len());
+        let ev = &rest[..end];
+        if let Some(j) = ev.find("(sel") {
+            let tail = &ev[j..];
+            let (sel, ans) = match tail.find("(unsat").or_else(|| tail.find("(sat")).or_else(|| tail.find("(unknown")) {
+                Some(k) => (&tail[..k], &tail[k..]),
+                None => (tail, ""),
+            };
+            let core = if ans.starts_with("(unsat") { ans.matches("(l ").count() } else { 0 };
+            out.push((sel.matches("(l ").count(), core));
+        }
+    }
+    out
 }
 
 fn bucket(n: u64) -> String {
